@@ -273,6 +273,8 @@ def r7(ctx):
     """One label per *input row*: nothing may transpose, trim, subsample or otherwise re-shape the series between the call and
     the stacker."""
     ana = ctx.ana
+    from .common import positional_order_kept
+    positional_order_kept(ctx, ["front_end.ticc_labels", "front_end.ticc_joint_labels"])     # W and K are the 2nd and 3rd positional arguments
     fe = ana.func("front_end.ticc_labels")
     st = ana.func("data_preparation.stack_training_data")
     cs = calls_to(ana, fe, st.qualname)
